@@ -431,7 +431,13 @@ func (s *handler) handle(ctx context.Context, req request, w func(func(io.Writer
 				}
 			}
 
-			callParams[i+1+handler.hasCtx] = reflect.ValueOf(rp.Interface())
+			cp := reflect.ValueOf(rp.Interface())
+			if !cp.IsValid() {
+				// nil interface value (e.g. JSON null for an interface-typed
+				// parameter); reflect.Value.Call needs a typed zero value
+				cp = reflect.Zero(typ)
+			}
+			callParams[i+1+handler.hasCtx] = cp
 		}
 	}
 
